@@ -289,6 +289,7 @@ fn lattices(thorough: bool) -> Vec<Lattice> {
     v.push(Lattice { name: "isolated5".into(), nvars: 5, edges: vec![(0, 2), (2, 4)] });
     v.push(Lattice { name: "star5".into(), nvars: 5, edges: vec![(0, 1), (0, 2), (0, 3), (0, 4)] });
     v.push(Lattice { name: "tri_ladder6".into(), nvars: 6, edges: vec![(0, 1), (1, 2), (3, 4), (4, 5), (0, 3), (1, 4), (2, 5), (0, 4), (1, 5)] });
+    v.push(Lattice { name: "hex6_chords".into(), nvars: 6, edges: vec![(0, 1), (1, 2), (2, 3), (3, 4), (4, 5), (5, 0), (0, 3), (1, 4)] });
     v.push(Lattice { name: "k4".into(), nvars: 4, edges: vec![(0, 1), (0, 2), (0, 3), (1, 2), (1, 3), (2, 3)] });
     let grid = |l: usize, w: usize| -> Lattice {
         let mut e = vec![];
@@ -352,12 +353,22 @@ fn ising_scenarios(out: &mut Out, gen: &mut SplitMix64, thorough: bool) {
         let rvb = (sc / (2 * lats.len())) % 2 == 1 || gen.chance(1, 3);
         let h = *gen.pick(&[0.0, 0.0, 0.5, -0.25, 1.0]);
         let gamma = *gen.pick(&[0.125, 0.5, 1.0, 2.0]);
-        let equal_j = gen.coin();
+        // 0: |J| = 1, 1: dyadic magnitudes, 2: NON-dyadic magnitudes (sums / differences of bond weights
+        // round in f64, so BondContainer.total_weight carries rounding residue; exercises cleanliness of
+        // returned containers under drift; the pool oracle and the event words do not depend on exactness)
+        let jmode = gen.below(3);
+        let equal_j = jmode == 0;
+        let rvb = rvb || jmode == 2;
+        let (gamma, h) = if jmode == 2 && gen.coin() { (*gen.pick(&[0.3, 0.5, 0.7]), *gen.pick(&[0.0, 0.3, -0.15])) } else { (gamma, h) };
         let js: Vec<f64> = lat
             .edges
             .iter()
             .map(|_| {
-                let mag = if equal_j { 1.0 } else { *gen.pick(&[0.5, 1.0, 1.5, 2.0]) };
+                let mag = match jmode {
+                    0 => 1.0,
+                    1 => *gen.pick(&[0.5, 1.0, 1.5, 2.0]),
+                    _ => *gen.pick(&[0.1, 0.3, 0.7, 0.35, 0.45, 0.2, 0.6, 0.9, 1.1]),
+                };
                 if gen.chance(1, 3) { -mag } else { mag }
             })
             .collect();
@@ -368,7 +379,7 @@ fn ising_scenarios(out: &mut Out, gen: &mut SplitMix64, thorough: bool) {
         let tag = format!(
             "ising:{}:J{}:G{}:h{}:b{}:hb{}:rvb{}:c{}:s{}",
             lat.name,
-            if equal_j { "eq" } else { "var" },
+            ["eq", "var", "nondyadic"][jmode as usize],
             show_f(gamma),
             show_f(h),
             show_f(beta),
@@ -382,6 +393,9 @@ fn ising_scenarios(out: &mut Out, gen: &mut SplitMix64, thorough: bool) {
         out.count(if h != 0.0 { "scen_ising_h" } else { "scen_ising_h0" });
         out.count(if hb { "scen_ising_heatbath" } else { "scen_ising_metropolis" });
         out.count(if rvb { "scen_ising_rvb" } else { "scen_ising_norvb" });
+        if jmode == 2 {
+            out.count("scen_ising_nondyadic_couplings");
+        }
         let step_kind = "istep";
         let diag_kind = if hb { "heatbath" } else { "diag" };
         let mut alive = true;
@@ -822,22 +836,64 @@ fn tempering_scenarios(out: &mut Out, gen: &mut SplitMix64, thorough: bool) {
     }
 }
 
+/// Public-API view of "no stale data": borrow every pooled bond container of a clone of the
+/// manager through `Factory`; each must be blank (no keys, total weight exactly 0, no address).
+fn probe_pooled_containers(m: &FastOps) -> Option<String> {
+    let mut m = m.clone();
+    let mut bad = None;
+    let a: BondContainer<usize> = m.get_instance();
+    let b: BondContainer<usize> = m.get_instance();
+    let c: BondContainer<VarPos> = m.get_instance();
+    let d: BondContainer<VarPos> = m.get_instance();
+    for (i, (e, w, cl)) in [
+        (a.is_empty(), a.get_total_weight(), a.verif_is_clean()),
+        (b.is_empty(), b.get_total_weight(), b.verif_is_clean()),
+        (c.is_empty(), c.get_total_weight(), c.verif_is_clean()),
+        (d.is_empty(), d.get_total_weight(), d.verif_is_clean()),
+    ]
+    .iter()
+    .enumerate()
+    {
+        if !*e || *w != 0.0 || !*cl {
+            bad = Some(format!("pooled bond container #{} handed out not blank (empty={}, total_weight={:e}, clean={})", i, e, w, cl));
+        }
+    }
+    let _ = verif_log::take();
+    bad
+}
+
 // ---------------------------------------------------------------------------------------------
 // soak: long runs, aggregated log
 // ---------------------------------------------------------------------------------------------
 fn soak(out: &mut Out, gen: &mut SplitMix64, thorough: bool) {
     let lats = lattices(thorough);
-    let (n_runs, steps) = if thorough { (48, 20000) } else { (10, 2500) };
-    for r in 0..n_runs {
-        let lat = lats[(r * 5 + 2) % lats.len()].clone();
-        let h = if r % 3 == 2 { 0.5 } else { 0.0 };
+    let (n_dyadic, n_nd, steps) = if thorough { (48, 48, 20000) } else { (10, 14, 2500) };
+    let frustrated = ["hex6_chords", "tri_ladder6", "k4", "ring3", "ring5", "torus3x3", "star5"];
+    for r in 0..(n_dyadic + n_nd) {
+        // the second block of runs uses NON-dyadic couplings on frustrated graphs with RVB on
+        let nd = r >= n_dyadic;
+        let lat = if nd {
+            let name = frustrated[(r - n_dyadic) % frustrated.len()];
+            lats.iter().find(|l| l.name == name).unwrap().clone()
+        } else {
+            lats[(r * 5 + 2) % lats.len()].clone()
+        };
+        let h = if nd { [0.0, 0.3, 0.0, -0.15][r % 4] } else if r % 3 == 2 { 0.5 } else { 0.0 };
         let hb = r % 4 == 1;
-        let rvb = r % 2 == 0;
-        let gamma = *gen.pick(&[0.25, 1.0]);
-        let beta = *gen.pick(&[0.5, 2.0, 4.0]);
-        let js: Vec<f64> = lat.edges.iter().map(|_| if gen.chance(1, 3) { -1.0 } else { 1.0 }).collect();
+        let rvb = nd || r % 2 == 0;
+        let gamma = if nd { *gen.pick(&[0.3, 0.5, 0.7]) } else { *gen.pick(&[0.25, 1.0]) };
+        let beta = if nd { *gen.pick(&[1.0, 2.0, 3.0]) } else { *gen.pick(&[0.5, 2.0, 4.0]) };
+        let js: Vec<f64> = lat
+            .edges
+            .iter()
+            .map(|_| {
+                let mag = if nd { *gen.pick(&[0.1, 0.3, 0.7, 0.35, 0.45, 0.2, 0.6, 0.9]) } else { 1.0 };
+                if gen.chance(1, 3) { -mag } else { mag }
+            })
+            .collect();
         let seed = gen.next();
-        let tag = format!("soak:{}:G{}:h{}:b{}:hb{}:rvb{}:steps{}:s{}", lat.name, show_f(gamma), show_f(h), show_f(beta), hb as u8, rvb as u8, steps, seed);
+        out.count(if nd { "soak_runs_nondyadic" } else { "soak_runs_dyadic" });
+        let tag = format!("soak:{}{}:G{}:h{}:b{}:hb{}:rvb{}:steps{}:s{}", lat.name, if nd { ":Jnondyadic" } else { "" }, show_f(gamma), show_f(h), show_f(beta), hb as u8, rvb as u8, steps, seed);
         let mut g = build_ising(&lat, &js, gamma, h, lat.nvars, seed, hb, rvb);
         let _ = verif_log::take();
         let before = snap_ig(&g);
@@ -877,6 +933,13 @@ fn soak(out: &mut Out, gen: &mut SplitMix64, thorough: bool) {
                 if let Some(i) = (0..9).find(|i| bal[*i] != 0) {
                     if problems.len() < 4 {
                         problems.push(format!("step {}: {} gets - returns = {} after the call", s, FIELDS[i], bal[i]));
+                    }
+                }
+                if s % 64 == 63 || s + 1 == steps {
+                    if let Some(p) = probe_pooled_containers(g.get_manager_ref()) {
+                        if problems.len() < 4 {
+                            problems.push(format!("step {}: {}", s, p));
+                        }
                     }
                 }
             }
@@ -1063,6 +1126,73 @@ fn bc_mode(out: &mut Out, gen: &mut SplitMix64, thorough: bool) {
     }
 }
 
+/// Oracle-only (no model comparison: weights are not exactly representable): insert keys with
+/// non-dyadic weights, update some, empty the container again through `remove()` only, hand it to
+/// the pool and borrow it back: it must be blank, whatever rounding residue the history left.
+fn bc_float_mode(out: &mut Out, gen: &mut SplitMix64, thorough: bool) {
+    let n = if thorough { 20000 } else { 2500 };
+    let ws = [0.1, 0.3, 0.7, 0.35, 0.45, 0.2, 0.6, 0.9, 1.1, 0.05, 2.3];
+    for _ in 0..n {
+        let span = 2 + gen.below(7) as usize;
+        let nops = 2 + gen.below(14) as usize;
+        let seq_seed = gen.next();
+        let mut ops: Vec<String> = vec![];
+        let mut problems: Vec<String> = vec![];
+        let mut residue = 0.0f64;
+        let res = catch(|| {
+            let mut gen = SplitMix64::new(seq_seed);
+            let mut m = FastOps::new_from_nvars(2);
+            let mut b: BondContainer<usize> = m.get_instance();
+            for _ in 0..nops {
+                let k = gen.below(span as u64) as usize;
+                if gen.chance(3, 4) {
+                    let w = *gen.pick(&ws);
+                    b.insert(k, w);
+                    ops.push(format!("i{}:{}", k, w));
+                } else if b.contains(&k) {
+                    b.remove(&k);
+                    ops.push(format!("r{}", k));
+                }
+            }
+            // empty it through remove() only, in a random order
+            let mut left: Vec<usize> = b.iter().map(|(k, _)| *k).collect();
+            while !left.is_empty() {
+                let k = left.swap_remove(gen.below(left.len() as u64) as usize);
+                b.remove(&k);
+                ops.push(format!("r{}", k));
+            }
+            if !b.is_empty() {
+                problems.push("not empty after removing every key".into());
+            }
+            residue = b.get_total_weight();
+            m.return_instance(b);
+            let again: BondContainer<usize> = m.get_instance();
+            if !again.is_empty() || again.get_total_weight() != 0.0 || !again.verif_is_clean() || (0..span + 1).any(|k| again.contains(&k)) {
+                problems.push(format!(
+                    "container emptied through remove() came back from the pool not blank: total_weight = {:e} (residue before return {:e})",
+                    again.get_total_weight(),
+                    residue
+                ));
+            }
+            m.return_instance(again);
+            for (ty, d, clean, _) in verif_log::take() {
+                if d == -1 && !clean {
+                    problems.push(format!("hook: returned {} not clean", ty));
+                }
+            }
+        });
+        if let Err(msg) = res {
+            problems.push(format!("panic: {}", msg));
+        }
+        out.count("bcfloat_sequences");
+        if residue != 0.0 {
+            out.count("bcfloat_sequences_with_rounding_residue_before_return");
+        }
+        let input = format!("bcfloat {}", if ops.is_empty() { "-".to_string() } else { ops.join(",") });
+        emit(false, &input, "-", Some(if problems.is_empty() { Ok(()) } else { Err(format!("{}: {}", ops.join(","), problems.join("; "))) }));
+    }
+}
+
 fn main() {
     quiet_panics();
     let a = args();
@@ -1081,7 +1211,10 @@ fn main() {
             tempering_scenarios(&mut out, &mut gen, a.thorough);
         }
         "soak" => soak(&mut out, &mut gen, a.thorough),
-        "bc" => bc_mode(&mut out, &mut gen, a.thorough),
+        "bc" => {
+            bc_mode(&mut out, &mut gen, a.thorough);
+            bc_float_mode(&mut out, &mut gen, a.thorough);
+        }
         m => {
             eprintln!("unknown mode {}", m);
             std::process::exit(2);
